@@ -349,7 +349,10 @@ func ApplyRevision(set *apps.StatefulSet, revision *kubeapps.ControllerRevision)
 	if err != nil {
 		return nil, err
 	}
-	return restoredSet, nil
+	// a revision records the Pod template and nothing else (see getPatch); whatever else its data may say is not
+	// allowed to replace fields of the live object that the rest of the reconcile relies on
+	clone.Spec.Template = restoredSet.Spec.Template
+	return clone, nil
 }
 
 // nextRevision finds the next valid revision number based on revisions. If the length of revisions
